@@ -224,7 +224,20 @@ def check_case(ctx, case):
                     ctx.count("caller_written_results")
                 except Exception:  # noqa: BLE001  (a read-only result is fine)
                     pass
-            for bx in case["boxes"]:
+            boxes_ = list(case["boxes"])
+            if nparts >= 9:
+                # boxes cut out of the extents of the last partitions: one of them is covered, its neighbour cut
+                # (with 9+ partitions the selected partition numbers are no longer single digits)
+                from ..props.c13 import total_ref
+                for k_ in (nparts - 2, 7):
+                    ea = list(total_ref(tkind, gg.pylist(twin[act].array[[i for i, r_ in enumerate(order) if r_ in part_sets[k_]]])))
+                    eb = list(total_ref(tkind, gg.pylist(twin[act].array[[i for i, r_ in enumerate(order) if r_ in part_sets[k_ + 1]]])))
+                    if ea[0] == ea[0] and eb[0] == eb[0]:
+                        bq = [(ea[0] + ea[2]) / 2.0, min(ea[1], eb[1]) - 1.0, max(ea[2], eb[2]) + 1.0, max(ea[3], eb[3]) + 1.0]
+                        if bq[0] < bq[2] and bq[1] < bq[3]:
+                            boxes_.append(bq)
+                            ctx.count("boxes_targeting_high_numbered_partitions")
+            for bx in boxes_:
                 x0, y0, x1, y1 = bx
                 # the box with its corners in every order (C01: the answer does not depend on it)
                 for cname, cb in (("", bx), (":reversed-corners", [x1, y1, x0, y0]), (":x-reversed", [x1, y0, x0, y1]),
